@@ -13,6 +13,7 @@
 #include "common/cachesim.h"
 #include "common/envx.h"
 #include "common/explore.h"
+#include "common/fsm_relation.h"
 #include "rtrlib/rtr/packets_private.h"
 
 /* ------------------------------------------------------------------ configuration */
@@ -283,6 +284,8 @@ static void state_key(struct vbuf *b)
 	mon_key(b);
 }
 
+static int PREV_STATE = RTR_CONNECTING;
+
 /* socket state callback: the real FSM reports every state change */
 static void on_state(const struct rtr_socket *s, const enum rtr_socket_state st, void *a, void *bb)
 {
@@ -291,6 +294,27 @@ static void on_state(const struct rtr_socket *s, const enum rtr_socket_state st,
 	(void)s;
 	ev("state:%s", rtr_state_to_str(st) ? rtr_state_to_str(st) : "?");
 	env_log("st=%d", st);
+	if (is_prop("C15R")) {
+		/* conformance of the MGRX transition relation: PREV_STATE -> st must be in R */
+		static char seen[11][11];
+
+		if (PREV_STATE <= RTR_ERROR_TRANSPORT && st <= RTR_ERROR_TRANSPORT) {
+			if (!seen[PREV_STATE][st]) {
+				seen[PREV_STATE][st] = 1;
+				V_COUNT("fsm_relation_pairs_observed", 1);
+			}
+			if (!FSM_R[PREV_STATE][st]) {
+				char key[100], what[300];
+
+				snprintf(key, sizeof(key), "fsm-relation-outdated|%s->%s", rtr_state_to_str(PREV_STATE), rtr_state_to_str(st));
+				snprintf(what, sizeof(what),
+					 "the real socket FSM changed state %s -> %s, which the transition relation of the manager exploration (fsm_relation.h) does not contain: the C15 exploration would be incomplete",
+					 rtr_state_to_str(PREV_STATE), rtr_state_to_str(st));
+				violation(key, what);
+			}
+		}
+	}
+	PREV_STATE = st;
 	if (st == RTR_ESTABLISHED) {
 		bool foreign;
 		unsigned int mask = sock_mask(&foreign);
@@ -366,6 +390,7 @@ static void sut_build(void)
 	N_PUBLISHED = 0;
 	N_STOPS = 0;
 	memset(&MON, 0, sizeof(MON));
+	PREV_STATE = RTR_CONNECTING;
 	MON.v = 1;
 	memset(&LAST, 0, sizeof(LAST));
 	vb_reset(&EVENTS);
@@ -1047,7 +1072,7 @@ static void setup_menus(void)
 		menu_add(RS_EOD_OTHER_FMT);
 		menu_add(RS_HIGHER_ANSWER);
 		menu_add(RS_TIMEOUT);
-	} else if (is_prop("C08")) {
+	} else if (is_prop("C08") || is_prop("C15R")) {
 		menu_add(RS_OK_NEW);
 		menu_add(RS_CACHE_RESET);
 		menu_add(RS_ERR_NODATA);
@@ -1067,7 +1092,11 @@ static void setup_menus(void)
 		IDLE_MENU[NIDLE++] = I_NOTIFY;
 		IDLE_MENU[NIDLE++] = I_ERROR;
 		IDLE_MENU[NIDLE++] = I_PUBLISH;
-		CFG_CONT_STEPS = 1;
+		CFG_CONT_STEPS = is_prop("C08");
+		if (is_prop("C15R")) {
+			menu_add(RS_ERR_UNSUPP_LOWER);
+			menu_add(RS_V0_ANSWER);
+		}
 	} else if (is_prop("C17")) {
 		menu_add(RS_OK_NEW);
 		menu_add(RS_TIMEOUT);
